@@ -92,6 +92,14 @@ def to_script(rng, kinds, seq, prefix):
             steps.append({"a": "wait", "ms": 6})
         elif a == "unbindm":
             steps.append({"a": "unbindm", "s": 2})
+            needs_loop = NEEDS_LOOP & set(kinds) and not st["bw"] and not st["closed"]
+            if rng.random() < 0.5 and not needs_loop:      # reads that were in flight when the stream was removed arrive through its old reader
+                for gap in (2, 3):
+                    st["r"] += gap
+                    st["id"] += 1
+                    steps.append({"a": "rrtp", "s": 2, "w": st["r"], "id": st["id"], "len": 20, "shape": 0, "tw": st["r"],
+                                  "fail": False, "stale": True})
+            steps.append({"a": "wait", "ms": 6})
             steps.append({"a": "wait", "ms": 6})
         elif a == "close":
             st["closed"] = True
